@@ -110,7 +110,8 @@ class Gen:
             return
         k = r.choice(free)
         if self.exists[k] and r.chance(1, 3):
-            self.add('create', ['* create %d 1 0' % k], 0, k, 'create NOCLOBBER on an existing file', expect='driver', coqfail='ODriver NC_EEXIST')
+            self.add('create', ['* create %d 1 0' % k, '* def_dim %d %s 4' % (k, hx('x')), '* def_var %d %s 4 1 0' % (k, hx('v'))], 0, k,
+                     'create NOCLOBBER on an existing file', expect='driver', coqfail='ODriver NC_EEXIST')
             return
         clobber = 1 if self.exists[k] else r.choice([0, 1])
         self.open[k] = 'rw'; self.exists[k] = True; self.used[k] = True; self.created[k] = True
@@ -338,6 +339,8 @@ def judge(evs, where, rc, out, lg, lastline, probes):
     slots = {k: -1 for k in range(8)}
     open_ids = {}            # id -> pending request count
     coq, obs, feats = [], [], set()
+    fexists = {k: False for k in range(4)}
+    idinfo = {}
     def fail(key, what, j):
         fails.append(dict(key=key, what=what, event=j))
     for j, (e, (ln0, pj)) in enumerate(zip(evs, where)):
@@ -360,16 +363,33 @@ def judge(evs, where, rc, out, lg, lastline, probes):
         if e.kind in ('create', 'open'):
             ncid = int(t[2]) if len(t) > 2 else -99
             obs.append((irc, ncid))
-            if e.expect == 'ok':
-                coq.append('ECreate OOk' if e.kind == 'create' else 'EOpen OOk')
-                if irc != 0:
-                    fail('create-open:refused', '%s failed with %d although fewer than NC_MAX_NFILES (%d) files are open' % (e.what, irc, len(open_ids)), j)
-                    coq[-1] = None
+            # what must happen follows from the state of the FILE as the log shows it (which files exist is tracked here, from
+            # the ids that were really released — the generator's idea may be off when the library reissues ids)
+            fs = e.slot
+            toks = e.lines[e.cmp].split()
+            if fs < 4 and e.kind == 'create':
+                want_ok = (toks[4] != '0') or not fexists[fs]
+                cq = 'ECreate OOk' if want_ok else 'ECreate (ODriver NC_EEXIST)'
+                why = 'create' if want_ok else 'create NOCLOBBER on an existing file'
+            elif fs < 4:
+                want_ok = fexists[fs]
+                cq = 'EOpen OOk' if want_ok else 'EOpen (OEarly NC_ENOENT)'
+                why = 'open' if want_ok else 'open of a missing file'
             else:
-                coq.append(('ECreate (%s)' if e.kind == 'create' else 'EOpen (%s)') % (e.coqfail if e.coqfail != 'ODriver' else 'ODriver (%d)' % irc))
-                if irc == 0:
-                    fail('create-open:unexpected-success', '%s returned NC_NOERR' % e.what, j)
-                    coq[-1] = None
+                want_ok = False
+                cq = ('ECreate (%s)' if e.kind == 'create' else 'EOpen (%s)') % (e.coqfail if e.coqfail != 'ODriver' else 'ODriver (%d)' % irc)
+                why = e.what
+            coq.append(cq)
+            if want_ok and irc != 0:
+                fail('create-open:refused', '%s failed with %d although fewer than NC_MAX_NFILES (%d) files are open' % (why, irc, len(open_ids)), j)
+                coq[-1] = None
+            if not want_ok and irc == 0:
+                fail('create-open:unexpected-success', '%s returned NC_NOERR' % why, j)
+                coq[-1] = None
+            if irc == 0 and fs < 4:
+                fexists[fs] = True
+                if 0 <= ncid < MAXF:
+                    idinfo[ncid] = dict(fs=fs, new=(e.kind == 'create'))
             if irc == 0:
                 if not (0 <= ncid < MAXF):
                     fail('create-open:invalid-id', '%s returned NC_NOERR with ncid %d (the handle is lost: it can be neither used nor closed)' % (e.what, ncid), j)
@@ -405,6 +425,8 @@ def judge(evs, where, rc, out, lg, lastline, probes):
                         fail('close:return-code', '%s of id %d with %d pending requests returned %d, expected %d' % (e.kind, i, open_ids[i], irc, want), j)
                     if irc != EBADID:
                         del open_ids[i]
+                        if e.kind == 'abort' and idinfo.get(i, {}).get('new'):
+                            fexists[idinfo[i]['fs']] = False       # abort of a file still in its first define mode removes it
             else:
                 ispost = opname in POSTS
                 coq.append(('EPost (%d)' if (e.kind == 'post') else 'EApi (%d)') % i)
@@ -414,10 +436,12 @@ def judge(evs, where, rc, out, lg, lastline, probes):
                 else:
                     if irc == EBADID:
                         fail('valid-id:refused', '%s with the open id %d returned NC_EBADID' % (opname, i), j)
-                    elif (e.inquiry or e.kind == 'post') and irc != 0:
+                    elif (e.inquiry or e.kind == 'post') and irc != 0 and not (opname == 'iput' and irc == EPERM):
                         fail('valid-id:call-failed', '%s with the open id %d returned %d' % (opname, i, irc), j)
                     if ispost and irc == 0:
                         open_ids[i] += 1
+                    if irc == 0 and opname in ('enddef', '_enddef') and i in idinfo:
+                        idinfo[i]['new'] = False
                     if irc == 0 and (opname == 'cancel' or (opname == 'wait' and len(t) > 2 and t[2] == '-1')):
                         open_ids[i] = 0
         # table probe after the event
